@@ -184,6 +184,22 @@ void h_trace_transpose(void)
   VC_REACH();
 }
 
+/* data movement only: larger shapes (both dimensions beyond any small-tile threshold, not multiples of 4) stay cheap */
+void h_transpose_large(void)
+{
+  matrix *m = in_matrix(VC_M, VC_N), *t, *tt;
+  NewMatrix(&t, VC_N, VC_M);
+  NewMatrix(&tt, VC_M, VC_N);
+  MatrixTranspose(m, t);
+  MatrixTranspose(t, tt);
+  for(size_t i = 0; i < VC_M; i++)
+    for(size_t j = 0; j < VC_N; j++) {
+      VC_CHECK("MatrixTranspose: t[j][i] = m[i][j]", VC_SAME(t->data[j][i], m->data[i][j]));
+      VC_CHECK("transpose is an involution", VC_SAME(tt->data[i][j], m->data[i][j]));
+    }
+  VC_REACH();
+}
+
 void h_sort(void)
 {
   /* rows = VC_M, columns: key (symbolic, not NaN) and a tag holding the original row number */
